@@ -45,7 +45,7 @@ class Leaf:
 class PathTable:
     def __init__(self, prog: Optional[Program] = None, module=None, accumulators: Sequence[str] = (),
                  env: Optional[Dict[str, sp.Expr]] = None, call_hook: Optional[Callable] = None, inline_depth: int = 2,
-                 positive: Sequence[str] = (), structured: bool = False):
+                 positive: Sequence[str] = (), structured: bool = False, scope: Optional[Func] = None):
         self.prog = prog
         self.module = module
         self.acc = set(accumulators)
@@ -54,6 +54,7 @@ class PathTable:
         self.inline_depth = inline_depth
         self.positive = set(positive)
         self.structured = structured
+        self.scope = scope              # enclosing function: its nested closures may be inlined
 
     # ------------------------------------------------------------------ translation with inlining
     def _T(self, env: Dict[str, sp.Expr], depth: int = 0) -> Translator:
@@ -80,6 +81,10 @@ class PathTable:
                 r = self.prog.resolve_name(self.module, call.func.id) if self.module is not None else None
                 if r and r[0] == "func":
                     return self._inline(r[1], call, TT, depth)
+                if self.scope is not None:
+                    g = self.prog.funcs.get(f"{self.scope.qualname}.<locals>.{call.func.id}")
+                    if g is not None:
+                        return self._inline(g, call, TT, depth)
             return None
         T.call_hook = hook
         return T
@@ -88,12 +93,13 @@ class PathTable:
         if any(isinstance(n, (ast.For, ast.While, ast.Try, ast.With)) for n in ast.walk(g.node)):
             return None
         bound = bind_call(call, g.params)
-        env = {}
+        closure = getattr(g, "kind", "") == "nested"
+        env = dict(T.env) if closure else {}       # a closure sees the enclosing function's bindings
         for p in g.params:
             if p in bound:
                 env[p] = T.tr(bound[p])
             elif p in g.defaults():
-                env[p] = Translator().tr(g.defaults()[p])
+                env[p] = (T if closure else Translator()).tr(g.defaults()[p])
             else:
                 return None
         body = [st for st in g.node.body if not (isinstance(st, ast.Expr) and isinstance(st.value, ast.Constant))]
@@ -201,20 +207,40 @@ class PathTable:
             for nm in assigned_names(st):       # values after the loop are unknown
                 l.env[nm] = sp.Symbol(nm, real=True)
             return [l]
-        if isinstance(st, (ast.Pass, ast.Assert, ast.Import, ast.ImportFrom)):
+        if isinstance(st, (ast.Pass, ast.Assert, ast.Import, ast.ImportFrom, ast.FunctionDef, ast.ClassDef, ast.Global, ast.Nonlocal, ast.Delete)):
             return [l]
         if isinstance(st, ast.With):
             return self._walk(st.body, l, depth)
         raise AnalysisError(f"decision table: unsupported statement {type(st).__name__}")
 
 
+MUTATORS = {"append", "extend", "insert", "update", "pop", "remove", "clear", "sort", "reverse", "add", "setdefault", "fill", "resize"}
+
+
 def assigned_names(node: ast.AST) -> Set[str]:
+    """Names whose value after `node` differs from before: rebound names and names whose object is written
+    (element / attribute stores, in-place methods)."""
     out: Set[str] = set()
+
+    def root(e):
+        while isinstance(e, (ast.Subscript, ast.Attribute)):
+            e = e.value
+        return e.id if isinstance(e, ast.Name) else None
     for n in ast.walk(node):
         if isinstance(n, ast.Name) and isinstance(n.ctx, ast.Store):
             out.add(n.id)
-        elif isinstance(n, ast.AugAssign) and isinstance(n.target, ast.Name):
-            out.add(n.target.id)
+        elif isinstance(n, ast.AugAssign):
+            r = root(n.target)
+            if r:
+                out.add(r)
+        elif isinstance(n, (ast.Subscript, ast.Attribute)) and isinstance(n.ctx, ast.Store):
+            r = root(n)
+            if r:
+                out.add(r)
+        elif isinstance(n, ast.Call) and isinstance(n.func, ast.Attribute) and n.func.attr in MUTATORS:
+            r = root(n.func.value)
+            if r:
+                out.add(r)
     return out
 
 
